@@ -95,6 +95,14 @@ CHECKS = {
                "and byte arrays of length 0..40 around the inline limit, multi-byte UTF-8, vectors) as keys and as values on "
                "DbMemory, DbFile and Db in lock-step incl. after reopen/backup; values are carried as bit-exact tokens and "
                "TLC demands token equality through DbModel's key-value semantics.", "3.3, 4 C12"),
+    "C22": _db("A corpus of user types deriving agdb::DbType (scalars, strings and byte arrays across the inline limit, bool, f64, "
+               "vectors of strings / integers / floats, Option fields, id fields of type Option<DbId> and Option<QueryId>, a type "
+               "without id) is inserted with insert().element / elements, updated through the id field, and selected back as that "
+               "type, on DbMemory, DbFile and Db. The trace carries InsertValues events whose pairs are the HAND-WRITTEN expectation "
+               "of the documented mapping (keys = field names in declaration order, db_id skipped, None => key absent), not the "
+               "macro's output; DbTrace applies them to DbModel and the Observe taken from the real database after each step must "
+               "equal the model (wrong key, dropped field, wrong order, wrong target element surface there); TypedRead events "
+               "require that the value selected as T equals the value written.", "B.3.3, B.4 C22"),
     "C13": _db("transaction_mut closures of 1-4 queries that commit, abort on their own, or contain a failing query, and "
                "single queries failing after partial work: TLC requires the dump after a rollback to equal the state before "
                "it up to the order of properties/connections (SameUpToOrder).", "3.3, 3.5, 4 C13"),
@@ -251,7 +259,7 @@ ENGINES = [
     {"name": "vstorage", "path": "harness/vstorage", "serves_properties": ["C01", "C04", "C19"],
      "kind_free_text": "Rust drivers over the real storage layer and hash map (hooks H1, H2); TLC for WalStorage/WalTrace, StorageAlloc/StorageAllocTrace, HashMap/HashMapTrace"},
     {"name": "vdb", "path": "harness/vdb",
-     "serves_properties": ["C02", "C03", "C23", "C32", "C05", "C06", "C08", "C09", "C10", "C11", "C12", "C13", "C14", "C15", "C16", "C17", "C18"],
+     "serves_properties": ["C02", "C03", "C22", "C23", "C32", "C05", "C06", "C08", "C09", "C10", "C11", "C12", "C13", "C14", "C15", "C16", "C17", "C18"],
      "kind_free_text": "Rust driver recording query histories from the real database (all storage variants); "
                        "TLC for DbModel/DbSearch/DbTrace/MCDb"},
 ]
@@ -266,7 +274,7 @@ ENGINES.append({"name": "vserver", "path": "lib/serverdrv.py", "serves_propertie
 
 NOT_APPLICABLE = [
     {"property_id": "C20", "reason": "encode/decode fidelity and exact sizes of pure functions: TLC sees leaf encodings only as opaque tokens, so a TLA+ model of the framing would decide a small fraction of the statement and the driver's own equality test the rest (DESIGN.md A.6)"},
-    {"property_id": "C22", "reason": "what this family can decide of it (the element's key-value map, bit-exact) is decided by C09 / C12; the generated derive-macro code and typed equality are outside any state machine (DESIGN.md A.6)"},
+
     {"property_id": "C07", "reason": "robustness/memory-safety over arbitrary file bytes (panic, abort, allocation size): no state machine for a TLA+ specification to constrain, TLC cannot observe panics or allocations"},
     {"property_id": "C21", "reason": "decode robustness of pure functions on arbitrary bytes: nothing for a TLA+ specification to decide"},
 ]
